@@ -907,7 +907,7 @@ func judge(c *vlib.Ctx, st *stats, h *host, p probe, o judgeOpts) {
 			report("vte", role, got, pan, "")
 		}
 		// the probe as one of several parents of the transaction (every genuine probe, a sample of the others)
-		if p.exp || fp%4 == 2 && !o.lean || fp%16 == 2 {
+		if p.exp || fp%8 == 2 && !o.lean || fp%32 == 2 {
 			for _, mc := range h.multiTxns(p.e, role) {
 				got, pan := h.askVTEMulti(mc.txn)
 				st.mu.Lock()
